@@ -98,8 +98,15 @@ func (t *ImmutableTree) VerifyNonMembership(proof *ics23.CommitmentProof, key []
 // createExistenceProof will get the proof from the tree and convert the proof into a valid
 // existence proof, if that's what it is.
 func (t *ImmutableTree) createExistenceProof(key []byte) (*ics23.ExistenceProof, error) {
+	if t.root == nil {
+		return nil, errors.New("cannot create an existence proof for an empty tree")
+	}
 	t.Hash()
 	path, node, err := t.root.PathToLeaf(t, key, t.nextVersion())
+	if node == nil {
+		// the walk failed before reaching a leaf
+		return nil, err
+	}
 	nodeVersion := t.nextVersion()
 	if node.nodeKey != nil {
 		nodeVersion = node.nodeKey.version
